@@ -196,6 +196,36 @@ pub fn c05_case(ctx: &mut Ctx, rng: &mut Rng, stage: &str, xdir: &str) {
             Err(p) => ctx.violation("write_panicked", "C05:write_panicked", p, cj("")),
         }
     }
+    // a sink that accepts only a few bytes per call (a pipe, a rate-limited writer) gets the same image
+    {
+        struct ChunkWriter {
+            buf: Vec<u8>,
+            max: usize,
+        }
+        impl Write for ChunkWriter {
+            fn write(&mut self, b: &[u8]) -> std::io::Result<usize> {
+                let n = b.len().min(self.max);
+                self.buf.extend_from_slice(&b[..n]);
+                Ok(n)
+            }
+            fn flush(&mut self) -> std::io::Result<()> {
+                Ok(())
+            }
+        }
+        let mut cw = ChunkWriter { buf: vec![], max: [1usize, 7, 16, 4096][(fail_k_frac % 4) as usize] };
+        ctx.eval();
+        match guarded(|| d.write(&mut cw).map_err(|e| e.to_string())) {
+            Ok(Ok(n)) if n == cw.buf.len() && cw.buf == bytes => ctx.bucket("image_written_through_short_write_sink"),
+            Ok(Ok(n)) => {
+                ctx.violation("short_write_sink_gets_another_image", "C05:short_write_sink_gets_another_image", format!("a sink accepting at most {} bytes per write call: write reported {n}, the sink holds {} bytes, the image has {}; equal bytes: {}", cw.max, cw.buf.len(), bytes.len(), cw.buf == bytes), cj(""));
+                return;
+            }
+            Ok(Err(e)) | Err(e) => {
+                ctx.violation("write_failed", "C05:write_failed_on_short_write_sink", e, cj(""));
+                return;
+            }
+        }
+    }
     // read back
     let d2 = match read_dict(&bytes) {
         Ok(Ok(d)) => d,
@@ -434,8 +464,17 @@ fn c09_image(rng: &mut Rng, which: u64, rich: bool) -> Option<(Vec<u8>, String)>
             _ => None,
         };
     }
+    // the exhaustively cut images keep to the BMP in their surfaces: one astral character makes the trie's code table
+    // (and the image) 0.5-4 MB of zeros, which the sampled image (index 3) covers
+    case.spec.lex.retain(|r| r.surface.chars().all(|c| (c as u32) < 0x10000));
+    if case.spec.lex.is_empty() {
+        case.spec.lex.push(LexRow { surface: "a".into(), l: 0, r: 0, cost: 1, feat: "A".into() });
+    }
     if rich {
-        case.user = Some(gen_user(rng, &case.spec, &cfg));
+        case.user = Some(gen_user(rng, &case.spec, &cfg).into_iter().filter(|r| r.surface.chars().all(|c| (c as u32) < 0x10000)).collect());
+        if case.user.as_ref().map_or(false, |u| u.is_empty()) {
+            case.user = None;
+        }
         let (nr, nl) = case.spec.conn.dims();
         case.mapping = Some((gen_perm_ids(rng, nl), gen_perm_ids(rng, nr)));
     } else {
@@ -445,6 +484,17 @@ fn c09_image(rng: &mut Rng, which: u64, rich: bool) -> Option<(Vec<u8>, String)>
         Prep::Ready { dict, .. } => write_dict(&dict).ok().map(|(b, _)| (b, format!("{} connector{}", case.spec.conn.kind(), if rich { " + user lexicon + id mapping" } else { "" }))),
         _ => None,
     }
+}
+
+/// `Dictionary::read` on a stream of a few bytes, on a helper thread: None if it has not returned after 30 s (for
+/// streams this short the time cannot be the machine's load: the call does not terminate).
+fn read_short_stream(data: &[u8]) -> Option<Result<bool, String>> {
+    let (tx, rx) = std::sync::mpsc::channel();
+    let d = data.to_vec();
+    std::thread::spawn(move || {
+        let _ = tx.send(guarded(|| Dictionary::read(&d[..]).is_ok()));
+    });
+    rx.recv_timeout(std::time::Duration::from_secs(30)).ok()
 }
 
 /// Fault enumeration: every strict prefix of the image must be rejected with Err, no panic.
@@ -462,7 +512,7 @@ pub fn c09_case(ctx: &mut Ctx, _rng: &mut Rng, stage: &str) {
     let n = img.len();
     // (the large image is cut at a sample of lengths: the first 2048, the last 8192 and every ~2500th in between)
     let sampled = which == 3;
-    let stride = if stage == "asan" { 997 } else if sampled { 2503 } else { 1 };
+    let stride = if stage == "asan" || stage == "dbgassert" { 997 } else if sampled { 2503 } else { 1 };
     let mut k = ctx.shard as usize;
     let mut tried = 0u64;
     let cj = |k: usize| json!({"image": desc, "image_len": n, "prefix_len": k, "image_seed_index": which});
@@ -470,7 +520,20 @@ pub fn c09_case(ctx: &mut Ctx, _rng: &mut Rng, stage: &str) {
         let near_boundary = stride == 1 || k < 2048 || n - k < if sampled { 8192 } else { 2048 } || k % stride < ctx.nshards as usize;
         if near_boundary {
             tried += 1;
-            match guarded(|| Dictionary::read(&img[..k]).is_ok()) {
+            let outcome = if k < 64 {
+                match read_short_stream(&img[..k]) {
+                    Some(r) => r,
+                    None => {
+                        ctx.violation("read_of_truncated_image_does_not_return", "C09:read_does_not_return", format!("Dictionary::read on the first {k} bytes of the image had not returned after 30 s"), cj(k));
+                        // (the reader thread keeps spinning; nothing else is tried in this process)
+                        ctx.evals(tried);
+                        return;
+                    }
+                }
+            } else {
+                guarded(|| Dictionary::read(&img[..k]).is_ok())
+            };
+            match outcome {
                 Ok(false) => {}
                 Ok(true) => {
                     ctx.violation("truncated_image_accepted", "C09:truncated_image_accepted", format!("the first {k} of {n} bytes were loaded as a dictionary"), cj(k));
@@ -543,9 +606,25 @@ pub fn c09_case(ctx: &mut Ctx, _rng: &mut Rng, stage: &str) {
             ctx.note("image does not start with the expected magic".into());
         }
         let mut tried = 0u64;
+        let mut hung = false;
         let mut bad = |ctx: &mut Ctx, data: Vec<u8>, what: String| {
             tried += 1;
-            match guarded(|| Dictionary::read(&data[..]).is_ok()) {
+            if hung {
+                return;
+            }
+            let first = if data.len() < 64 {
+                match read_short_stream(&data) {
+                    Some(r) => r,
+                    None => {
+                        hung = true;
+                        ctx.violation("read_of_foreign_stream_does_not_return", "C09:read_does_not_return", format!("{what}: Dictionary::read had not returned after 30 s"), json!({"what": what}));
+                        return;
+                    }
+                }
+            } else {
+                guarded(|| Dictionary::read(&data[..]).is_ok())
+            };
+            match first {
                 Ok(false) => {}
                 Ok(true) => ctx.violation("foreign_magic_accepted", "C09:foreign_magic_accepted", what.clone(), json!({"what": what})),
                 Err(p) => ctx.violation("read_panicked_on_foreign_magic", &format!("C09:magic:{}", panic_class(&p)), format!("{what}: {p}"), json!({"what": what})),
@@ -721,7 +800,15 @@ pub fn c11_case(ctx: &mut Ctx, rng: &mut Rng) {
     };
     let d = if user_side {
         let csv_copy = csv.clone();
-        match guarded(move || d.reset_user_lexicon_from_reader(Some(csv_copy.as_bytes())).map_err(|e| e.to_string())) {
+        // now and then another user lexicon is installed first: the CSV under test replaces it
+        let preload = rng.chance(0.3);
+        if preload {
+            ctx.bucket("user_lexicon_replaces_an_installed_one");
+        }
+        match guarded(move || {
+            let d = if preload { d.reset_user_lexicon_from_reader(Some(&b"zzy,0,0,1,OLD\nab,0,0,2,OLD2\n"[..])).map_err(|e| e.to_string())? } else { d };
+            d.reset_user_lexicon_from_reader(Some(csv_copy.as_bytes())).map_err(|e| e.to_string())
+        }) {
             Ok(Ok(d)) => d,
             Ok(Err(e)) => {
                 if rows.iter().any(|r| !r.surface.is_empty()) {
